@@ -102,6 +102,8 @@ class Tracker:
         self.max_groups = 0
         self.max_group_size = 0
         self.readds = 0
+        self.edges = {}      # v -> {label: target} in first-bind order (since the vertex was created)
+        self.datum = {}      # v -> last data repr
 
     def clone(self):
         t = Tracker(self.n, self.cap)
@@ -124,6 +126,8 @@ class Tracker:
                 self.readds += 1
             self.present.add(v)
             self.labels[v] = []
+            self.edges[v] = {}
+            self.datum[v] = None
             self.hasdata.discard(v)
             self.unread.discard(v)
 
@@ -136,6 +140,7 @@ class Tracker:
                 self.out_of_limits = True
                 return
             self.labels[v1].append(a)
+        self.edges.setdefault(v1, {})[a] = v2
         g1, g2 = self.grp.get(v1), self.grp.get(v2)
         if g1 is None and g2 is None:
             if len(self.members) >= 14:
@@ -160,12 +165,13 @@ class Tracker:
         self.max_groups = max(self.max_groups, len(self.members))
         self.max_group_size = max([self.max_group_size] + [len(m) for m in self.members.values()])
 
-    def put(self, v):
+    def put(self, v, d=None):
         if v not in self.present:
             self.out_of_limits = True
             return
         self.unread.add(v)
         self.hasdata.add(v)
+        self.datum[v] = d
 
     def data(self, v):
         if v not in self.present:
@@ -210,7 +216,7 @@ def apply_op(t, op):
     elif k == "BIND":
         t.bind(int(p[2]), int(p[3]), p[4])
     elif k == "PUT":
-        t.put(int(p[2]))
+        t.put(int(p[2]), p[3] if len(p) > 3 else None)
     elif k == "DATA":
         t.data(int(p[2]))
     elif k == "NEXT":
@@ -341,6 +347,10 @@ ADVERSARY_PREFIXES = [
     ["ADD g 0", "ADD g 1", "ADD g 2", "ADD g 3", "BIND g 0 1 A0", "BIND g 2 3 A0", "BIND g 1 2 A1", "PUT g 3 V05"],
     # read twice, then put again
     ["ADD g 1", "ADD g 2", "BIND g 1 2 A0", "PUT g 1 V01", "PUT g 2 V02", "DATA g 1", "DATA g 1", "PUT g 1 V03"],
+    # a datum read while ungrouped, then the vertex is bound and the group's real last datum is read
+    ["ADD g 1", "PUT g 1 V01", "DATA g 1", "ADD g 2", "PUT g 2 V02", "BIND g 1 2 A0", "DATA g 2"],
+    # a re-put after a read while another member still holds unread data
+    ["ADD g 1", "ADD g 2", "ADD g 3", "BIND g 1 2 A0", "BIND g 1 3 A1", "PUT g 1 V01", "PUT g 2 V02", "DATA g 1", "PUT g 1 V03", "DATA g 2"],
 ]
 
 
@@ -400,9 +410,14 @@ def soak_history(rng, hid, cycles, bystanders=None):
         vs = [base + (start + j) % pool for j in range(size)]
         for v in vs:
             ops.append("ADD g %d" % v)
-        style = rng.below(4)
+        style = rng.below(6)
         if style == 0:      # put before bind
             ops.append("PUT g %d %s" % (vs[-1], gen_data(rng)))
+        if style == 4:      # a datum put and read while the vertex is still ungrouped
+            ops.append("PUT g %d %s" % (vs[0], gen_data(rng)))
+            ops.append("DATA g %d" % vs[0])
+        if style == 5:      # re-add of a present member-to-be, and of the collected ids later
+            ops.append("ADD g %d" % vs[0])
         ops.append("BIND g %d %d %s" % (vs[0], vs[1], lab_alpha(0)))
         if size == 3:
             ops.append("BIND g %d %d %s" % (vs[0], vs[2], lab_alpha(1)) if n > 1 else
@@ -427,15 +442,30 @@ def soak_history(rng, hid, cycles, bystanders=None):
 def clone_history(rng, hid):
     """prefix on g; CLONE g h; the same calls on both copies; then calls on
     one copy only while the other is observed"""
-    h0 = core_history(rng, hid, length=rng.pick([8, 15, 30]), observers=False,
-                      weights={"put": 20, "data": 10, "next": 8, "nextadd": 6})
+    if rng.chance(1, 4):
+        # boundary shapes at clone time: exactly 14 groups alive / a group of exactly 16 / a vertex with exactly N labels
+        kind = rng.pick(["groups", "groups", "members", "labels"])
+        n0 = rng.pick([1, 2, 4, 16])
+        cap0 = rng.pick([32, 40]) if kind != "labels" else rng.pick([4, 8])
+        pre = fill_prefix(rng, kind, n0, cap0)[1:]
+        h0 = core_history(rng, hid, n=n0, cap=cap0, length=rng.pick([0, 3, 8]) or 1, observers=False, prefix=pre,
+                          idpool=min(cap0, 30), base=0, weights={"put": 30, "data": 6, "bind": 4, "add": 4, "next": 4})
+        h0.meta["boundary"] = True
+    else:
+        h0 = core_history(rng, hid, length=rng.pick([8, 15, 30]), observers=False,
+                          weights={"put": 20, "data": 10, "next": 8, "nextadd": 6})
     t = h0.meta["tracker"]
     ops = [o for o in h0.ops if not o.startswith(("KEYS", "KIDS", "KID"))]
     ops.append("CLONE g h")
     clone_at = len(ops) - 1
-    cont = core_history(rng.fork(), "x", n=h0.n, cap=h0.meta["cap"], length=rng.pick([6, 12, 25]),
-                        observers=False, prefix=ops[1:clone_at],
-                        weights={"put": 18, "data": 22, "next": 8, "nextadd": 6})
+    if h0.meta.get("boundary"):
+        cont = core_history(rng.fork(), "x", n=h0.n, cap=h0.meta["cap"], length=rng.pick([30, 60, 90]),
+                            observers=False, prefix=ops[1:clone_at], idpool=min(h0.meta["cap"], 30), base=0,
+                            weights={"put": 30, "data": 34, "next": 3, "nextadd": 2, "add": 2, "bind": 2, "readd": 1})
+    else:
+        cont = core_history(rng.fork(), "x", n=h0.n, cap=h0.meta["cap"], length=rng.pick([6, 12, 25]),
+                            observers=False, prefix=ops[1:clone_at],
+                            weights={"put": 18, "data": 22, "next": 8, "nextadd": 6})
     tail = cont.ops[clone_at:]
     pairs = []
     for o in tail:
